@@ -99,7 +99,21 @@ TraceCompute ==
   /\ m' = IF Ev.outcome = "ok" THEN Ev.model ELSE m
   /\ UNCHANGED Hz
 
-TraceNext == TraceTables \/ TraceLoad \/ TraceCheck \/ TracePurge \/ TraceCompute
+\* the same obligations on a model reached by structural edits of a JSON tree (only the reference graph and
+\* the outcome are recorded): total, harmless to later computations, finite when closed and sane
+TraceComputeLite ==
+  /\ IsEvent("ComputeLite")
+  /\ Chk("C14", "Total", Ev.outcome = "ok")
+  /\ lock' = IF Ev.outcome # "ok" /\ "probe_ok" \in DOMAIN Ev /\ ~Ev.probe_ok THEN "poisoned" ELSE lock
+  /\ Chk("C14", "FailureDoesNotAffectLaterComputations", lock' = "free")
+  /\ Chk("C14", "FiniteOnSaneModels", (Ev.outcome = "ok" /\ Ev.sane /\ Sane(Ev.graph)) => Ev.nonfinite = <<>>)
+  /\ Chk("C14", "ResultRoundtripsOnSaneModels", (Ev.outcome = "ok" /\ Ev.sane /\ Sane(Ev.graph)) => Ev.roundtrips)
+  /\ UNCHANGED <<m, Hz, last>>
+
+\* the recorder continues in a fresh process after a failure that damaged the old one
+TraceRestart == IsEvent("Restart") /\ lock' = "free" /\ UNCHANGED <<m, Hz, last>>
+
+TraceNext == TraceTables \/ TraceLoad \/ TraceCheck \/ TracePurge \/ TraceCompute \/ TraceComputeLite \/ TraceRestart
 TraceSpec == TraceInit /\ [][TraceNext]_vars
 
 Accepted ==
